@@ -209,8 +209,12 @@ def trace_graph(g):
        dangling: closest placed neighbour -/+ length of the path to it
        between : from.pos + sum(size + (stretch if the edge is stretchy)),
                  stretch = max(0, (separation - extent) / stretches) of the longest path
+    For a 'between' call it also records the EDGES of the walked path (reversed(from_path) + to_path, the path
+    along which positions are assigned) and of the path the stretch was computed for
+    (longest_path(from_gnode, to_gnode)), each edge as 'tail>head' in forward orientation.
     The wrappers call the original methods and do not alter any result."""
     how, walked, rule_ok, squeezed = {}, {}, {}, {}
+    walked_edges, stretch_path = {}, {}
     o_longest, o_fixed1, o_s1 = g.assign_longest, g.assign_fixed1, g.assign_stretchy1
     TOL = 1e-9
 
@@ -220,7 +224,7 @@ def trace_graph(g):
     def byname():
         return dict((_gname(gn), gn) for gn in g.values())
 
-    def settle(before, branch, expected, on_path=None, squeeze=False):
+    def settle(before, branch, expected, on_path=None, squeeze=False, w_edges=None, s_edges=None):
         nodes = byname()
         for n in before - unknown_names():
             how[n] = branch
@@ -228,6 +232,9 @@ def trace_graph(g):
                 squeezed[n] = True
             if on_path:
                 walked[n] = on_path
+            if w_edges is not None and s_edges is not None:
+                walked_edges[n] = w_edges
+                stretch_path[n] = s_edges
             rule_ok[n] = bool((n in expected) and abs(nodes[n].pos - expected[n]) < TOL)
 
     def assign_longest(path, unknown):
@@ -264,6 +271,7 @@ def trace_graph(g):
         on_path = []
         expected = {}
         squeeze = False
+        w_edges = s_edges = None
         try:
             to_path = g.path_to_closest_known(gnode, forward=True)
             from_path = g.path_to_closest_known(gnode, forward=False)
@@ -282,6 +290,10 @@ def trace_graph(g):
                 on_path = sorted(set(_gname(e.from_gnode) for e in fedges + tedges) |
                                  set(_gname(e.to_gnode) for e in fedges + tedges))
                 path = g.longest_path(fg, tg)
+                # from_path consists of reverse edges (stored at the head, pointing to the tail)
+                w_edges = ['%s>%s' % (_gname(e.to_gnode), _gname(e.from_gnode)) for e in fedges] + \
+                          ['%s>%s' % (_gname(e.from_gnode), _gname(e.to_gnode)) for e in tedges]
+                s_edges = ['%s>%s' % (_gname(e.from_gnode), _gname(e.to_gnode)) for e in path]
                 stretches, separation, extent = path.stretches, tg.pos - fg.pos, path.dist
                 stretch = 0 if stretches == 0 else max(0, (separation - extent) / stretches)
                 # the two placed nodes are closer than the minimum extent of the path between them
@@ -299,11 +311,11 @@ def trace_graph(g):
         except Exception:
             pass
         r = o_s1(gnode, unknown)
-        settle(before, branch, expected, on_path, squeeze)
+        settle(before, branch, expected, on_path, squeeze, w_edges, s_edges)
         return r
 
     g.assign_longest, g.assign_fixed1, g.assign_stretchy1 = assign_longest, assign_fixed1, assign_stretchy1
-    return how, walked, rule_ok, squeezed
+    return how, walked, rule_ok, squeezed, walked_edges, stretch_path
 
 
 def raw_solve(sch, method, out):
@@ -311,7 +323,7 @@ def raw_solve(sch, method, out):
     placer = schemplacer(sch.elements, sch.nodes, method, 0)
     placer._make_graphs()
     for ax, g in (('x', placer.xgraph), ('y', placer.ygraph)):
-        how, walked, rule_ok, squeezed = trace_graph(g) if method == 'graph' else (None, None, None, None)
+        how, walked, rule_ok, squeezed, walked_edges, stretch_path = trace_graph(g) if method == 'graph' else (None,) * 6
         with warnings.catch_warnings(record=True) as wl:
             warnings.simplefilter('always')
             try:
@@ -326,6 +338,8 @@ def raw_solve(sch, method, out):
             out[ax]['walked'] = walked
             out[ax]['rule_ok'] = rule_ok
             out[ax]['squeezed'] = squeezed
+            out[ax]['walked_edges'] = walked_edges
+            out[ax]['stretch_path'] = stretch_path
         if method == 'lineq':
             # what Lineq.solve itself reported, and the shape of its LU factor (root-cause signatures)
             negs = []
